@@ -907,7 +907,14 @@ def model_case(case, outs, inp):
                 if gg is None or gg["trees"].get(name) is None:
                     return None
                 refs.append("#%s:%s" % (gg["dir"], name))
+            # the documents parsed are modelled; the math strings of imported components that resolveImports re-reads (also from
+            # cached files) are not known here: the model's flag is a lower bound, then re-synchronised on the observed value
             toks.append("I %d %s" % (len(refs), " ".join(refs)))
+            toks.append("S %s" % d.get("g", "0"))
+            kinds.append("I")
+            kinds.append("sync")
+            n += 2
+            continue
         elif k == "F":
             # partially modelled: the flag can only stay or be set; re-synchronise on the observed value
             toks.append("F 0")
@@ -1134,8 +1141,12 @@ class Judge:
             cpp = case.steps[ci][0]
             self.hist["model_steps"] += 1
             bad = []
-            if kd != "F" and md.get("g") != d.get("g"):
+            if kd not in ("F", "I") and md.get("g") != d.get("g"):
                 bad.append("flag after the step: implementation %s, model %s" % (d.get("g"), md.get("g")))
+            if kd == "I" and md.get("g") == "1" and d.get("g") != "1":
+                bad.append("resolveImports: the model says the documents it parsed set the flag, the implementation left it off")
+            if kd == "I" and d.get("g") == "0" and outs[ci - 1][1].get("g") == "1":
+                bad.append("resolveImports cleared the flag (the model says it can only keep or set it)")
             if kd == "F" and d.get("g") == "0" and outs[ci - 1][1].get("g") == "1":
                 bad.append("flattenModel cleared the flag (the model says it can only keep or set it)")
             if kd == "P":
